@@ -111,8 +111,8 @@ def handle (line : String) : String :=
   | ["fieldkey", eol, ind, kind, a, b, c, d] => Driver.FieldProto.handle eol ind kind a b c d
   | ["endtoken", eol, ind, a] => Driver.EndProto.handle eol ind a
   | ["punct", eol, ind0, ind, vt, pl, pt, nl] => Driver.PunctProto.handle eol ind0 ind vt pl pt nl
-  | ["sugar", "drop", eol, a, b, c, d, f, g] => Driver.SugarProto.handleDrop eol a b c d f g
-  | ["sugar", "add", eol, c, d] => Driver.SugarProto.handleAdd eol c d
+  | ["sugar", "drop", eol, arg, a, b, c, d, f, g] => Driver.SugarProto.handleDrop eol arg a b c d f g
+  | ["sugar", "add", eol, arg, c, d] => Driver.SugarProto.handleAdd eol arg c d
   | ["tablefield", eol, ind, vt, hs, pl, pt] => Driver.TableFieldProto.handle eol ind vt hs pl pt
   | ["callarg", eol, ind, vt, hs, pl, pt] => Driver.CallArgProto.handle eol ind vt hs pl pt
   | ["config", req] => Driver.ConfigProto.handle req
